@@ -28,6 +28,9 @@ def boxes_markup(kind_a="rect", kind_b="rect"):     # (build() splits the result
     def one(kind, id_, k):
         if kind == "rect":
             return f'<rect id="{id_}" xy="[[{k}]] [[{k + 1}]]" wh="[[{k + 2}]] [[{k + 3}]]"/>'
+        if kind == "use":
+            # an instance of a rect template: the same box, reached through <use>
+            return f'<use id="{id_}" href="#ut{id_}" x="[[{k}]]" y="[[{k + 1}]]"/><defs><rect id="ut{id_}" wh="[[{k + 2}]] [[{k + 3}]]"/></defs>'
         return f'<ellipse id="{id_}" xy="[[{k}]] [[{k + 1}]]" wh="[[{k + 2}]] [[{k + 3}]]"/>'
     vars_ = [(0, *POS), (0, *POS), (20, *SZ), (10, *SZ), (50, *POS), (1, *POS), (12, *SZ), (8, *SZ)]
     return one(kind_a, "a", 0) + one(kind_b, "b", 4), vars_
@@ -54,9 +57,15 @@ def templates(tier, seed):
             tds.append(dict(fam="straight", s=s, e=e, ka="rect", kb="rect"))
     for s, e in (("plain", "plain"), ("plain", "@c"), ("@br", "plain")):
         tds.append(dict(fam="straight", s=s, e=e, ka="ellipse", kb="rect"))
+        tds.append(dict(fam="straight", s=s, e=e, ka="use", kb="rect"))
+    for s, e in (("plain", "plain"), ("@r", "@l"), ("@b", "plain")):
+        tds.append(dict(fam="corner", s=s, e=e, off="none", ka="use", kb="use"))
     for et in ("h", "v", "horizontal", "vertical"):
         for s, e in (("plain", "plain"),):
             tds.append(dict(fam="hv", et=et, s=s, e=e))
+            # the connected elements may be instances (<use>)
+            tds.append(dict(fam="hv", et=et, s=s, e=e, ka="use", kb="use"))
+            tds.append(dict(fam="hv", et=et, s=s, e=e, ka="rect", kb="use"))
             # the edge type decides the connector kind, whatever the element is called
             tds.append(dict(fam="hv", et=et, s=s, e=e, tag="polyline"))
     CS = ["plain", "@t", "@r", "@b", "@l", "@t:o", "@r:o", "@b:o", "@l:o", "@t:25%", "@r:25%", "@b:150%", "@l:50%"]
@@ -82,7 +91,7 @@ def templates(tier, seed):
             for order in ("kab", "akb", "kba", "rel-b", "rel-b-kab"):
                 ordered.append(dict(t, order=order))
     if tier == "quick":
-        tds = sample_quota(tds, lambda t: (t["fam"],), {"straight": 120, "hv": 8, "corner": 260}, seed)
+        tds = sample_quota(tds, lambda t: (t["fam"],), {"straight": 120, "hv": 16, "corner": 260}, seed)
         ordered = sample_quota(ordered, lambda t: (t["fam"], t["order"]), {"straight": 12, "hv": 2, "corner": 16}, seed)
     if tier == "quick":
         stray = sample_quota(stray, lambda t: (t["fam"], t["stray"]), {"straight": 10, "hv": 4}, seed)
@@ -194,7 +203,13 @@ def build(td, wrong=False):
         obls = []
         bad = [a for a in ("start", "end", "edge-type", "corner-offset") if k.get(a) is not None]
         obls.append(Obl("connector-attrs-removed", FAIL if bad else PASS, ground=True, note=",".join(bad)))
-        A, B = G.elem_box(o, o.by_id("a")), G.elem_box(o, o.by_id("b"))
+        def box_of(id_):
+            el = o.by_id(id_)
+            if o.tag(el) == "use":
+                tb = G.elem_box(o, o.by_id(el.get("href").lstrip("#")))
+                return tb.translate(o.num(el, "x"), o.num(el, "y"))
+            return G.elem_box(o, el)
+        A, B = box_of("a"), box_of("b")
         ktag = o.tag(k)
         if ktag == "line":
             pts = [(o.num(k, "x1", None), o.num(k, "y1", None)), (o.num(k, "x2", None), o.num(k, "y2", None))]
